@@ -144,6 +144,11 @@ def handle (op : String) (req : Json) : Except String Json := do
     match builderContainers site (← getCallInfo n req) b c p with
     | .error .valueError => pure (errJson "value-error")
     | .ok (cC, cT) => pure (okJson (Json.arr #[Json.str (containerStr cC), Json.str (containerStr cT)]))
+  | "site" =>
+    pure (okJson (Json.mkObj [
+      ("priorMatrixToArray", Json.bool site.priorMatrixToArray),
+      ("transposeHalfIntLiteral", Json.bool site.transposeHalfIntLiteral),
+      ("transposeTotalSum", Json.bool site.transposeTotalSum)]))
   | "scipy_table" =>
     -- the scipy result types the table assumes, for re-measurement by the harness
     let c ← getContainer (← getStr (← field req "container"))
